@@ -91,6 +91,18 @@ def expected_commands(op):
         return [(0x15, [5, 0, op["n"]])]
     if k == "kp_read_key_store":
         return [(0x15, [6])]
+    if k == "update_life_cycle":
+        return [(0x18, [op["value"]])]
+    if k == "ele_message":
+        return [(0x19, [0] + list(op["args"]))]
+    if k == "tp_oem_set_master_share":
+        return [(0x16, [1] + list(op["args"]))]
+    if k == "tp_hsm_enc_blk":
+        return [(0x16, [5] + list(op["args"]))]
+    if k == "fuse_program":
+        return [(0x14, [op["addr"], op["n"], clamp_id(op["mem_id"])])]
+    if k == "fuse_read":
+        return [(0x17, [op["addr"], op["n"], clamp_id(op["mem_id"])])]
     if k == "read_memory":
         return None
     return []   # open, load_image: no command at all
@@ -123,9 +135,10 @@ def command_oracle(op, evs, success, cfg):
     return viol
 SIMPLE = {"fill_memory", "flash_erase_region", "flash_erase_all", "execute", "call", "flash_erase_all_unsecure",
           "configure_memory", "reliable_update", "set_property", "kp_enroll", "kp_set_intrinsic_key", "kp_write_nonvolatile",
-          "kp_read_nonvolatile", "flash_program_once", "efuse_program_once"}
+          "kp_read_nonvolatile", "flash_program_once", "efuse_program_once", "update_life_cycle", "ele_message",
+          "tp_oem_set_master_share", "tp_hsm_enc_blk"}
 DATA_OPS = {"write_memory", "receive_sb_file", "read_memory", "get_property", "kp_set_user_key", "kp_write_key_store", "kp_read_key_store",
-            "flash_read_resource", "flash_read_once", "efuse_read_once"}
+            "flash_read_resource", "flash_read_once", "efuse_read_once", "fuse_program", "fuse_read"}
 
 
 def hx(b):
@@ -352,6 +365,18 @@ def call_op(mb, op):
         return canon_val(mb.kp_read_key_store())
     if k == "reset":
         return canon_val(mb.reset(timeout=0, reopen=bool(op["reopen"])))
+    if k == "update_life_cycle":
+        return canon_val(mb.update_life_cycle(op["value"]))
+    if k == "ele_message":
+        return canon_val(mb.ele_message(*op["args"]))
+    if k == "tp_oem_set_master_share":
+        return canon_val(mb.tp_oem_set_master_share(*op["args"]))
+    if k == "tp_hsm_enc_blk":
+        return canon_val(mb.tp_hsm_enc_blk(*op["args"]))
+    if k == "fuse_program":
+        return canon_val(mb.fuse_program(op["addr"], op_data(op), op["mem_id"]))
+    if k == "fuse_read":
+        return canon_val(mb.fuse_read(op["addr"], op["n"], op["mem_id"]))
     raise ValueError(k)
 
 
@@ -411,6 +436,14 @@ def op_line(op):
         return "op kp_read_key_store"
     if k == "reset":
         return f"op reset {int(op['reopen'])}"
+    if k == "update_life_cycle":
+        return f"op update_life_cycle {op['value']}"
+    if k in ("ele_message", "tp_oem_set_master_share", "tp_hsm_enc_blk"):
+        return f"op {k} " + " ".join(str(a) for a in op["args"])
+    if k == "fuse_program":
+        return f"op fuse_program {op['addr']} {hx(op_data(op))} {op['mem_id']}"
+    if k == "fuse_read":
+        return f"op fuse_read {op['addr']} {op['n']} {op['mem_id']}"
     raise ValueError(k)
 
 
@@ -700,7 +733,26 @@ class PyDev:
                 self.phase = [0x15, 0, params[2], ev]
             else:
                 self.finish(0x15)
-        elif tag in (7, 12, 5, 2, 3, 4, 8, 0x10, 0x0F, 0x0E, 0x15):
+        elif tag in (0x18, 0x19):
+            self.log.append((tag, params))
+        elif tag == 0x16 and params and params[0] in (1, 5):
+            self.log.append((tag, params))
+        elif tag == 0x17 and len(params) == 3:
+            a, ln, _ = params    # the fuse / IFR area is the `resource` region
+            if a + ln <= len(self.resource):
+                ev["data"] = self.resource[a:a + ln]
+                ev["final"] = fin
+            else:
+                ev["status"] = 10200
+        elif tag == 0x14 and len(params) == 3:
+            self.sb = b""
+            self.log.append((tag, params))
+            ev["final"] = fin
+            ev["expect"] = params[1]
+            ev["got"] = 0
+            if params[1]:
+                self.phase = [0x14, 0, params[1], ev]
+        elif tag in (7, 12, 5, 2, 3, 4, 8, 0x10, 0x0F, 0x0E, 0x15, 0x16, 0x17, 0x14):
             ev["status"] = 1
         else:
             ev["status"] = 10000
@@ -761,7 +813,7 @@ class PyDev:
             v = ev["values"]
             return bytes([0xAF, 0, 0, 2 + len(v)]) + struct.pack(f"<{2 + len(v)}I", 0, 4 * len(v), *v)
         if "data" in ev:
-            rtag = {3: 0xA3, 0x10: 0xB0, 0x15: 0xB5}[tag]
+            rtag = {3: 0xA3, 0x10: 0xB0, 0x15: 0xB5, 0x17: 0xA3}[tag]
             return bytes([rtag, 0, 0, 2]) + struct.pack("<2I", 0, len(ev["data"]))
         return self._generic(0, tag)
 
@@ -929,6 +981,7 @@ def gen_op(rng, cfg, dev, first, malformed=False):
     kinds += ["load_image", "load_image", "flash_read_once", "flash_program_once", "efuse_read_once", "efuse_program_once", "efuse_program_once",
               "flash_read_resource", "kp_enroll", "kp_set_intrinsic_key", "kp_write_nonvolatile", "kp_read_nonvolatile", "kp_set_user_key",
               "kp_write_key_store", "kp_read_key_store", "reset"]
+    kinds += ["update_life_cycle", "ele_message", "tp_oem_set_master_share", "tp_hsm_enc_blk", "fuse_program", "fuse_program", "fuse_read", "fuse_read"]
     if cfg["tr"] == "serial":
         kinds += ["open"] * (6 if first else 1)
     k = rng.choice(kinds)
@@ -985,6 +1038,16 @@ def gen_op(rng, cfg, dev, first, malformed=False):
         op.update(mem_id=rng.choice([0, 1, 9]))
     elif k == "reset":
         op.update(reopen=rng.random() < 0.6)
+    elif k == "update_life_cycle":
+        op.update(value=rng.choice([0, 1, 0x5A, 0xFF, rng.getrandbits(32)]))
+    elif k in ("ele_message", "tp_oem_set_master_share", "tp_hsm_enc_blk"):
+        op.update(args=[rng.choice([0, 1, 0x20000000, rng.getrandbits(32)]) for _ in range({"ele_message": 4, "tp_oem_set_master_share": 4, "tp_hsm_enc_blk": 8}[k])])
+    elif k == "fuse_program":
+        op.update(addr=rng.choice([0, 4, rng.getrandbits(32)]), n=gen_len(rng, mp, 600), seed=rng.randrange(1 << 30), mem_id=mem_id)
+    elif k == "fuse_read":
+        rs = dev.get("res_size", 0)
+        n = rng.choice([0, 1, 4, 7, 16, rs, gen_len(rng, mp, rs)])
+        op.update(addr=rng.choice([0, 4, max(0, rs - n), rs]), n=n, mem_id=mem_id)
     if malformed and rng.random() < 0.5:
         for key in ("addr", "value", "arg", "pattern", "index"):
             if key in op and rng.random() < 0.4:
@@ -1226,6 +1289,14 @@ def oracle_op(s, case, op, res, status, tx, pre_mem, pre_sb, pydev, evs, strict,
             a, n = op["addr"], op["n"]
             if a + n > len(pydev.resource) or got != pydev.resource[a:a + n]:
                 viol.append(("flash_read_resource reports success but the returned bytes are not exactly the device's bytes", {"returned_len": len(got)}))
+        elif k == "fuse_program":
+            if pydev.sb != op_data(op):
+                viol.append(("fuse_program reports success but the device did not receive exactly the fuse data (once, in order)", {"got": len(pydev.sb), "sent": op["n"]}))
+        elif k == "fuse_read":
+            got = bytes.fromhex(res[5:]) if res[5:] != "-" else b""
+            a, n = op["addr"], op["n"]
+            if a + n > len(pydev.resource) or got != pydev.resource[a:a + n]:
+                viol.append(("fuse_read reports success but the returned bytes are not exactly the device's bytes", {"returned_len": len(got), "requested": n}))
         elif k == "efuse_read_once":
             if res != f"ok:n:{pydev.pre['fuses'].get(op['index'], 0)}":
                 viol.append(("efuse_read_once reports a value the device does not hold", res))
@@ -1678,6 +1749,83 @@ def run(ck):
     property_stream(ck, drv)
     # ---- blhost CLI glue
     cli_stream(ck, drv)
+    # ---- trust-provisioning query methods (real code only)
+    tp_query_stream(ck)
+
+
+TP_QUERIES = {  # method -> (TrustProvOperation, number of arguments, returns values[0] instead of the list)
+    "tp_oem_gen_master_share": (0, 8, False), "tp_oem_get_cust_cert_dice_puk": (2, 4, True), "tp_hsm_gen_key": (3, 6, False),
+    "tp_hsm_store_key": (4, 6, False), "tp_hsm_enc_sign": (6, 6, True), "tp_oem_get_cust_dice_response": (7, 4, True)}
+
+
+def tp_query_stream(ck):
+    """McuBoot.tp_* methods that return words of a TrustProvisioningResponse, on a one-response interface (no Lean model: oracle only)."""
+    from spsdk.exceptions import SPSDKError
+    from spsdk.mboot.commands import parse_cmd_response
+    from spsdk.mboot.exceptions import McuBootCommandError
+    from spsdk.mboot.mcuboot import McuBoot
+    rng = ck.rng
+    s = ck.stream("tp_queries", "tp_oem_gen_master_share / tp_oem_get_cust_cert_dice_puk / tp_hsm_gen_key / tp_hsm_store_key / tp_hsm_enc_sign / "
+                  "tp_oem_get_cust_dice_response x cmd_exception x response {TrustProvisioning with status 0 and 1..4 words, TrustProvisioning with an error "
+                  "status and 0..2 words, Generic with status 0 / error}: the command packet is (0x16, operation, caller's words); values are returned as "
+                  "sent only with status 0; an error status gives None / [] / McuBootCommandError(status) with status_code = the device's, never success "
+                  "and never an undocumented exception; non-trivial = distinct (method, cmd_exception, response)")
+
+    class OneShot:
+        identifier = "tp-stub"
+        is_opened = True
+
+        def __init__(self, payload):
+            self.payload, self.sent = payload, []
+
+        def open(self):
+            pass
+
+        def close(self):
+            pass
+
+        def write_command(self, packet):
+            self.sent.append(packet)
+
+        def read(self, length=None):
+            return parse_cmd_response(self.payload)
+
+    for name, (opn, nargs, first) in sorted(TP_QUERIES.items()):
+        for ce in (False, True):
+            for kind in ("tp_ok", "tp_err", "gen_ok", "gen_err"):
+                for _ in range(ck.budget(3, 10)):
+                    st = 0 if kind.endswith("ok") else rng.choice(STATUSES)
+                    nv = rng.randint(1, 4) if kind == "tp_ok" else rng.choice([0, 0, 1, 2]) if kind == "tp_err" else 0
+                    vals = [rng.choice([0, 1, 0x40, rng.getrandbits(32)]) for _ in range(nv)]
+                    payload = (bytes([0xB6, 0, 0, 1 + nv]) + struct.pack(f"<{1 + nv}I", st, *vals)) if kind.startswith("tp") else \
+                        (bytes([0xA0, 0, 0, 2]) + struct.pack("<2I", st, 0x16))
+                    args = [rng.choice([0, 1, 0x20001000, rng.getrandbits(32)]) for _ in range(nargs)]
+                    case = {"method": name, "cmd_exception": ce, "response": kind, "status": st, "values": vals, "args": args}
+                    s.note((name, ce, kind, st, tuple(vals)), cls=kind)
+                    itf = OneShot(payload)
+                    mb = McuBoot(itf, cmd_exception=ce)
+                    exc, res = None, None
+                    try:
+                        res = getattr(mb, name)(*args)
+                    except Exception as e:  # noqa: BLE001 - the class of the exception is what is examined
+                        exc = e
+                    sent = [(p.header.tag, list(p.params)) for p in itf.sent]
+                    s.expect(sent == [(0x16, [opn] + args)], case, "trust provisioning: the command packet is not (TRUST_PROVISIONING, operation, the caller's words)", sent)
+                    if st == 0 and kind == "tp_ok":
+                        s.expect(exc is None and res == (vals[0] if first else vals) and mb.status_code == 0, case,
+                                 "trust provisioning: the words of a SUCCESS response are not returned as the device sent them", repr(exc or res)[:80])
+                    elif st == 0:
+                        s.expect(exc is None and res is None, case, "trust provisioning: a generic response carries no values, None expected", repr(exc or res)[:80])
+                    elif ce:
+                        s.expect(isinstance(exc, McuBootCommandError) and exc.error_value == st, case,
+                                 "device error status with cmd_exception: McuBootCommandError(status) expected", repr(exc or res)[:80])
+                    else:
+                        known = "C10-tp-error-status-indexerror" if (first and kind == "tp_err" and not vals) else None
+                        s.expect(exc is None or isinstance(exc, SPSDKError), case,
+                                 "device error status (cmd_exception off): an undocumented exception escapes instead of a failure result", repr(exc)[:80], None, known)
+                        s.expect(mb.status_code == st, case, "status_code is not the status the device sent", mb.status_code, st)
+                        s.expect(exc is not None or not is_success(canon_val(res) if not isinstance(res, int) or isinstance(res, bool) else f"ok:n:{res}", mb.status_code),
+                                 case, "device error status reported as success", repr(res)[:80])
 
 
 def corpus_stream(ck, drv):
